@@ -220,6 +220,39 @@ def run(ctx):
                               dict(rec, slice=i), {'what': 'batched_field', 'type': 'back_and_forth' if cfg['back'] else 'forward'})
                 break
 
+    # ---------------- the plane and the channel named in the other ordinary ways: a negative index (counted from the last plane, as for the lists and tensors
+    # the propagator indexes with it), a NumPy integer, a 0-d integer tensor - the same plane, the same result
+    for _ in range(ctx.n(4, 24)):
+        cfg = make_cfg(rng)
+        while len(cfg['dists']) < 2 or len(set(np.float32(cfg['dists']).tolist())) < len(cfg['dists']):
+            cfg = make_cfg(rng)
+        ap = aperture_of(cfg, rng)
+        h, w = cfg['h'], cfg['w']
+        nd, nc = len(cfg['dists']), len(cfg['lams'])
+        u = torch.from_numpy(W.rand_field(rng, h, w, 'gauss')).to(torch.complex64)
+        for d in range(nd):
+            for c in range(nc):
+                want = build(cfg, ap)(u, channel_id=c, depth_id=d).detach().numpy().astype(np.complex128)
+                scale = max(1.0, float(np.max(np.abs(want))))
+                for what, dd, cc in (('negative depth index', d - nd, c), ('negative channel index', d, c - nc), ('NumPy integers', np.int64(d), np.int32(c)),
+                                     ('0-d integer tensors', torch.tensor(d), torch.tensor(c)), ('negative NumPy integer for the plane', np.int64(d - nd), c)):
+                    ctx.case(('id_types', cfg['back'], cfg['method'], h, w, d, c, what), True)
+                    ctx.count('plane_and_channel_named_by/' + what)
+                    ctx.traces += 1
+                    try:
+                        pobj = build(cfg, ap)
+                        got = pobj(u, channel_id=cc, depth_id=dd).detach().numpy().astype(np.complex128)
+                        again = pobj(u, channel_id=c, depth_id=d).detach().numpy().astype(np.complex128)
+                    except Exception:
+                        ctx.count('plane_and_channel_named_by/rejected: ' + what)
+                        continue
+                    if got.shape != want.shape or W.maxdiff(got, want) > 5e-4 * scale or W.maxdiff(again, want) > 5e-4 * scale:
+                        ctx.violation('propagator(field, channel_id=%r, depth_id=%r) [%s] on a propagator with %d planes and %d channels differs from plane %d, channel %d '
+                                      'of a fresh propagator (max difference %.3g; the plain call afterwards on the same object: %.3g)'
+                                      % (cc, dd, what, nd, nc, d, c, W.maxdiff(got, want), W.maxdiff(again, want)),
+                                      {'cfg': {k_: v for k_, v in cfg.items()}, 'depth': d, 'channel': c, 'named_by': what},
+                                      {'what': 'id_types', 'named_by': what, 'type': 'back_and_forth' if cfg['back'] else 'forward'})
+                        break
     # ---------------- reconstruct vs per-call results, before and after other calls
     import odak.learn.wave as LW
     for _ in range(ctx.n(4, 30)):
